@@ -49,7 +49,7 @@ open DM.Props.C13
 /-- trace invariant and latch accounting along the main loop, for the same list of segments -/
 theorem mainLoop_TR_LI (pre out0 : List Nat) (list : List Sym) (body : List Nat) (hb : ByteList body)
     (plan0 : List (Nat × EMode)) (target : List Nat) :
-    ∀ (f : Nat) (s : St) (k : Nat) (sE : St) (segs : List Seg), Enc.mainLoop f s k = .ok sE → MI pre out0 list body s →
+    ∀ (f : Nat) (s : St) (k : Nat) (sE : St) (segs : List Seg), Enc.mainLoop f s k = .ok sE → MI false pre out0 list body s →
       TR pre out0 list body plan0 s segs → LI target s segs →
       ∃ segsE, TR pre out0 list body plan0 sE segsE ∧ LI target sE segsE := by
   intro f
@@ -60,7 +60,7 @@ theorem mainLoop_TR_LI (pre out0 : List Nat) (list : List Sym) (body : List Nat)
     by_cases hmore : s.hasMore = true
     · obtain ⟨s', k', he, hm⟩ := mainLoop_step f s sE k h hmore
       obtain ⟨X, tr'⟩ := step_TR_seg pre out0 list body hb plan0 s s' segs mi tr hmore he
-      exact ih s' k' sE _ hm (step_MI pre out0 list body hb s s' mi hmore he) tr' (step_LI target s s' segs X li he)
+      exact ih s' k' sE _ hm (step_MI false pre out0 list body hb s s' mi hmore he) tr' (step_LI target s s' segs X li he)
     · have hmf : s.hasMore = false := by simpa using hmore
       rw [mainLoop_end _ _ _ hmf] at h
       simp only [Except.ok.injEq] at h
@@ -80,7 +80,7 @@ theorem latch_sequence_segments (pre out0 : List Nat) (list : List Sym) (body cw
   have mi0 := mi_init pre out0 list body plan hplan
   have tr0 := tr_init pre out0 list body plan
   have li0 := li_init list pre body plan hplan hsorted hfit
-  obtain ⟨miE, hmf⟩ := mainLoop_MI pre out0 list body hb _ _ 0 sE hmain mi0
+  obtain ⟨miE, hmf⟩ := mainLoop_MI false pre out0 list body hb _ _ 0 sE hmain mi0
   obtain ⟨segs, tr, li⟩ := mainLoop_TR_LI pre out0 list body hb plan _ _ _ 0 sE [] hmain mi0 tr0 li0
   obtain ⟨pads, hp⟩ := segments_of_TR pre out0 list body cw plan sym sE segs hsym hpad miE hmf tr
   exact ⟨segs, pads, hp, li_end _ sE segs li hmf⟩
